@@ -50,25 +50,22 @@ Definition spec_ok (proj : list str) (es : list entry) (ires : res)
   | RErr => may_fail top
   | _ =>
     let ip := pages ires in
-    (* the reading of an ambiguous directory is taken from what the implementation did with it *)
-    let skip := fun p => negb (existsb (fun so => path_eqb (snd so) (p ++ [s "index.html"])) ip) in
-    pages_eqb ip (spec_pages skip proj [] top)
+    pages_eqb ip (spec_pages only_copied proj [] top)
     && forallb (fun so => opt_eqb origin_eqb (file_at (snd so) ifiles) (Some (Page (fst so)))) ip
     && forallb (fun p => match file_at p ifiles with
                          | Some (Copy q) => path_eqb p q
                          | Some (Page _) => true
                          | None => false
                          end)
-               (spec_copied [] top ++ spec_copydirs proj [] top)
+               (spec_copied proj [] top ++ spec_copydirs proj [] top)
     && forallb (fun pf => match snd pf with
                           | Copy q => path_eqb (fst pf) q && path_in q (flat_map all_files es)
                           | Page src => existsb (page_eqb (src, fst pf)) ip
                           end) ifiles
   end.
 
-Definition region (proj : list str) (es : list entry) : nat :=
-  (if gp_lost proj None (Dir [] es) then 1 else 0)
-  + (if plain_names (Dir [] es) then 0 else 2).
+(* no known region is left: the three defects found here are repaired *)
+Definition region (proj : list str) (es : list entry) : nat := 0.
 
 Definition judge (c : case) : nat :=
   let proj := fst (fst c) in
